@@ -1272,6 +1272,9 @@ func (d *drv) docCase(doc *docgen.Doc, hi int, nRepeat int) {
 	d.repeat(doc.Bytes, hi, base, nRepeat)
 	d.givenTree(doc.Bytes, hi, base)
 	d.remoteContext(doc, hi, base)
+	if d.cfg.Thorough() || d.rng.Intn(2) == 0 {
+		d.ctxHistory(doc, hi, base)
+	}
 	d.replaceLeaves(doc, hi, base)
 	if d.rng.Intn(10) == 0 {
 		d.rep.Sample(map[string]any{"doc": string(doc.Bytes), "root": base.Root, "entries": len(base.Entries), "hasher": hi})
@@ -1867,6 +1870,15 @@ func (d *drv) replay(path string) error {
 			}
 			in.Class = class
 			d.fail("equivalent documents give different results: "+diff, in)
+		}
+	case "ctx-history":
+		var hn histNote
+		if err := json.Unmarshal([]byte(in.Note), &hn); err != nil {
+			return err
+		}
+		if i, got := d.runHistory(in.Hasher, hn); i >= 0 {
+			fmt.Printf("replay: step %d (%s): %s, expected %s\n", i+1, hn.Seq[i].URL, got, hn.Seq[i].Want)
+			d.fail(fmt.Sprintf("family %s, step %d: %s vs %s with the context inline", hn.Family, i+1, got, hn.Seq[i].Want), in)
 		}
 	case "range":
 		a, _, _ := d.observe([]byte(in.Doc), in.Hasher)
